@@ -238,6 +238,7 @@ Definition mstep_l (cf : config) (st : state) (m : macro) (acc : list label) : o
         | None => None
         end
       else None
+  | MArriveU _ _ _ _ _ => None      (* id re-use / extra park points: outside the classified schedules *)
   | MCont t mask => mrun_l cf 200%nat st t mask acc
   | MFire key =>
       match lookup key_eqb key (items st) with
@@ -247,7 +248,8 @@ Definition mstep_l (cf : config) (st : state) (m : macro) (acc : list label) : o
   | MGcAll => gc_all_l cf (S (length (gcs st))) st acc
   | MClose k => one_l cf st (LClose k) acc
   | MLost k => one_l cf st (LLost k) acc
-  | MDrained k => one_l cf st (LDrained k) acc
+  | MDrained k =>
+      if c_state (get_conn st k) =? c_connectionClosed then Some (st, acc) else one_l cf st (LDrained k) acc
   end.
 
 (* newest label first *)
